@@ -130,8 +130,9 @@ def run(ctx):
                             continue
                         if br.kind != "ok":
                             continue
-                        if not br.computed:
-                            ok_branches += 1
+                        if br.sentinel:
+                            continue  # the constructor generated the check field (in-band sentinel, see C04): the sibling path carries the comparison
+                        ok_branches += 1
                         k = f"{base}"
                         if ("w", k) not in seen_keys:
                             seen_keys.add(("w", k))
